@@ -353,7 +353,7 @@ class Gen:
             if self.names and r.chance(50):
                 nm = r.pick(sorted(self.names))
             else:
-                nm = "D%d" % len(self.names)
+                nm = def_name(len(self.names))
                 saved = self.allow_names
                 self.allow_names = False          # definitions here do not refer to definitions
                 body = self.pat(min(depth - 1, 2))
@@ -361,6 +361,40 @@ class Gen:
                 self.names[nm] = body
             return ('name', nm, self.names[nm])
         return self.atom()
+
+
+def _flex_hash(name, size=101):
+    h = 0
+    for ch in name.encode():
+        h = ((h << 1) + ch) % size
+    return h
+
+
+_DEF_NAMES = {}
+
+
+def def_name(k):
+    """D0, then a name that has D0 as a prefix and the same value of flex's symbol hash (declared after it), D2, its twin, ...:
+    look-ups must compare whole names."""
+    if k in _DEF_NAMES:
+        return _DEF_NAMES[k]
+    if k % 2 == 0:
+        nm = "D%d" % k
+    else:
+        base = "D%d" % (k - 1)
+        nm = "D%d" % k
+        letters = "abcdefghijklmnopqrstuvwxyz0123456789_"
+        done = False
+        for a in letters:
+            for b in letters:
+                if _flex_hash(base + "_" + a + b) == _flex_hash(base):
+                    nm = base + "_" + a + b
+                    done = True
+                    break
+            if done:
+                break
+    _DEF_NAMES[k] = nm
+    return nm
 
 
 def nullable(p):
